@@ -108,6 +108,7 @@ class PropKB:
         self.idof = {}         # id(object) -> model id
         self.order = []        # model ids in dependency order (operands first)
         self.user_ids = []
+        self.requested = {n["id"]: n for n in desc["nodes"] if n["kind"] in ("atom", "and", "or", "implies")}
         next_id = max(n["id"] for n in desc["nodes"]) + 1
         acts = {"luk": L.NeuralActivation.Lukasiewicz, "lukt": L.NeuralActivation.LukasiewiczTransparent}
         for n in desc["nodes"]:
@@ -182,12 +183,23 @@ class PropKB:
         ops = [self.idof[id(x)] for x in o.operands]
         neuron = o.neuron
         alpha = fr(neuron.alpha)
+        # parameters the description REQUESTED win over what the built object holds: the model then computes the meaning the
+        # user configured, and an object that silently holds something else disagrees with it
+        req = self.requested.get(i, {})
+        if "alpha" in req:
+            alpha = Fr(req["alpha"])
         if kind in ("atom", "not"):
             ws, b, t = [], Fr(1), 1
         else:
             ws = [Fr(float(w)) for w in neuron.weights.detach().tolist()]
             b = fr(neuron.bias)
             t = 1 if type(neuron).__name__ == "LukasiewiczTransparent" else 0
+            if "w" in req and cn in ("And", "Or", "Implies"):
+                ws = [Fr(w) for w in req["w"]]
+            if "b" in req and cn in ("And", "Or", "Implies"):
+                b = Fr(req["b"])
+            if "act" in req and cn in ("And", "Or", "Implies"):
+                t = 1 if req["act"] == "lukt" else 0
         pre, post, pidx = [], [], 0
         if cn == "Iff":
             pre = [self.idof[id(o.Imp1)], self.idof[id(o.Imp2)]]
